@@ -59,14 +59,16 @@ def judge(ctx, curve, dom, d, k, digest, at, fmt, cls, key, via_hash=None):
     r, s = rs
     Q = ecdsa_ref.pubkey(dom, d)
     sig = sigs.ref_encode(fmt, r, s, n)
-    dec = {"string": util.sigdecode_string, "der": util.sigdecode_der}[fmt]
+    dec = {"string": util.sigdecode_string, "der": util.sigdecode_der, "strings": util.sigdecode_strings}[fmt]
     ident = (2 * e + r * d) % n == 0 or e % n == 0 and False
     # is one of the two candidates the identity?  Q2 = r^-1 (s R' - e G) with R' = -R: = -(k s + e)/r G ; identity iff ks + e = 0
     ident = (k * s + e) % n == 0
     par = "parity_even" if R[1] % 2 == 0 else "parity_odd"
     _BL["i"] += 1
     sig_arg, dig_arg = sig, digest
-    if _BL["i"] % 3 == 0:
+    if fmt == "strings":
+        sig_arg = list(sig) if _BL["i"] % 2 else tuple(sig)
+    elif _BL["i"] % 3 == 0:
         sig_arg = gen.pick_container(sig, _BL["i"] // 3, wide=(fmt == "string"))[1]
         dig_arg = gen.pick_container(digest, _BL["i"] // 3 + 3)[1]
         ctx.count("bytes_like_arguments")
@@ -169,6 +171,21 @@ def run(ctx, name, kind, **kw):
                     hf = lib.hash_by_name(hn)
                     msg = b"c14 %d" % rnd
                     judge(ctx, c, dom, d, kk, hf(msg).digest(), True, "string", "recover.hash", "%s|%s" % (c.name, hn), via_hash=(msg, hf))
+                    judge(ctx, c, dom, d, kk, hf(msg).digest(), True, "strings", "recover.hash", "%s|%s|pair" % (c.name, hn), via_hash=(msg, hf))
+                judge(ctx, c, dom, d, kk, bytes(rng.getrandbits(8) for _ in range(L)), True, "strings", "recover.digest", "%s|pair" % c.name)
+                # signatures with a CHOSEN s (and the key solved for: d = (s k - e) / r): the top and bottom of the range, values at and above the
+                # field's bit length where the order is the longer one (secp160r1), powers of two
+                Rk = dom.curve.mul(kk, dom.G)
+                if Rk is not None and Rk[0] % n:
+                    dgc = bytes(rng.getrandbits(8) for _ in range(L))
+                    ec = ecdsa_ref.digest_to_e(dom, dgc, True)
+                    for s_ch in sorted({1, 2, n - 1, n - 2, n // 2, n // 2 + 1, 1 << (nbits - 1), (1 << (nbits - 1)) + 1, min(n - 1, 1 << dom.p.bit_length()), min(n - 1, dom.p), min(n - 1, dom.p + 1),
+                                        min(n - 1, (1 << (8 * ((nbits - 1) // 8))))}):
+                        d_ch = (s_ch * kk - ec) * nt.inv(Rk[0] % n, n) % n
+                        if d_ch:
+                            ctx.count("chosen_s_signatures")
+                            fmt = ("string", "der", "strings")[(s_ch + rnd) % 3]
+                            judge(ctx, c, dom, d_ch, kk, dgc, True, fmt, "recover.chosen_s", "%s|%s" % (c.name, "top" if s_ch >= 1 << (nbits - 1) else "low"))
                 # e = 0
                 judge(ctx, c, dom, d, kk, b"\x00" * L, True, "string", "recover.e_zero", c.name)
                 # constructed: second candidate is the identity.  Need k s + e = 0 with s = (e + r d)/k  =>  2e = -r d
